@@ -10,7 +10,10 @@ are compared with each other and with a closed-form reference.
              (sub-group or root) approximates its totals, optionally with total coloring and an
              indexed design variable
   abort    : a compute_totals aborted by a non-converging linear solver, then the run continues
-  prepost  : optimisation with the pre/iter/post splitting and design variables of mixed kinds
+  prepost  : optimisation with the pre/iter/post splitting and design variables of mixed kinds;
+             also Problem.find_feasible (grouping on / off) on the same models with two constraints
+             violated at the start: the final point must be feasible and every output, including
+             the post-optimization component's, consistent with the final design
 """
 import contextlib
 import io
@@ -59,6 +62,10 @@ def families(tier):
                 for mode in ('fwd', 'rev'):
                     out.append({'family': 'prepost', 'kinds': list(kinds), 'post': post, 'pre': pre,
                                 'mode': mode})
+                    # the feasibility search drives the model itself (pre / iterations / post)
+                    for gb in (False, True):
+                        out.append({'family': 'prepost', 'kinds': list(kinds), 'post': post,
+                                    'pre': pre, 'mode': mode, 'run': 'find_feasible', 'group': gb})
     return out
 
 
@@ -284,7 +291,9 @@ def _abort(case, no_rel):
 
 def _prepost(case, no_rel):
     import openmdao.api as om
-    p = om.Problem(reports=None)
+    feas = case.get('run') == 'find_feasible'
+    p = om.Problem(reports=None, group_by_pre_opt_post=bool(case['group'])) if 'group' in case \
+        else om.Problem(reports=None)
     m = p.model
     ka, kb = case['kinds']
     if 'ivc' in (ka, kb):
@@ -314,18 +323,34 @@ def _prepost(case, no_rel):
     m.add_design_var(an, lower=-10., upper=10.)
     m.add_design_var(bn, lower=-10., upper=10.)
     m.add_objective('f')
+    if feas:
+        # infeasible at the start: y1 = (a-3)^2 <= 1 needs a in [2, 4], y2 = (b+1)^2 >= 16
+        m.add_constraint('y1', upper=1.0)
+        m.add_constraint('y2', lower=16.0)
     p.driver = om.ScipyOptimizeDriver(optimizer='SLSQP', disp=False, tol=1e-12, maxiter=100)
     got, ref = {}, {}
     with _relevance(no_rel):
         p.setup(mode=case['mode'])
         p.set_val(an, 1.0)
         p.set_val(bn, 1.0)
-        p.run_driver()
+        if feas:
+            p.final_setup()
+            p.find_feasible()
+        else:
+            p.run_driver()
     a, b = float(p.get_val(an)[0]), float(p.get_val(bn)[0])
-    got[('opt', 'a')] = np.array([a])
-    got[('opt', 'b')] = np.array([b])
-    ref[('opt', 'a')] = np.array([52. / 15.])
-    ref[('opt', 'b')] = np.array([-28. / 15.])
+    if feas:
+        got[('feasible', 'y1<=1')] = np.array([min(1.0 - (a - 3.0) ** 2, 0.0)])
+        ref[('feasible', 'y1<=1')] = np.array([0.0])
+        got[('feasible', 'y2>=16')] = np.array([min((b + 1.0) ** 2 - 16.0, 0.0)])
+        ref[('feasible', 'y2>=16')] = np.array([0.0])
+        got[('consistent', 'y1')] = np.array(p.get_val('y1'))
+        ref[('consistent', 'y1')] = np.array([(a - 3.0) ** 2])
+    else:
+        got[('opt', 'a')] = np.array([a])
+        got[('opt', 'b')] = np.array([b])
+        ref[('opt', 'a')] = np.array([52. / 15.])
+        ref[('opt', 'b')] = np.array([-28. / 15.])
     # outputs consistent with the final design point
     f_true = (a - 3.0) ** 2 + (b + 1.0) ** 2 + 0.5 * a * b
     got[('consistent', 'f')] = np.array(p.get_val('f'))
